@@ -99,17 +99,16 @@ def _containers() -> dict[str, int]:
     reg = get_component_registry()
     for k in sorted(reg):
         out[f"component_registry[{k}]"] = len(reg[k])
-    out["ProcessorRegistry._processors"] = len(ProcessorRegistry._processors)
-    out["ProcessorRegistry._registered_modules"] = len(ProcessorRegistry._registered_modules)
-    out["ProcessorRegistry._module_history"] = len(ProcessorRegistry._module_history)
-    out["ECR._orchestrators"] = len(ECR._orchestrators)
-    out["ECR._executors"] = len(ECR._executors)
-    out["ECR._transports"] = len(ECR._transports)
-    out["plugin_registry._LOADED_EXTENSIONS"] = len(plugin_registry._LOADED_EXTENSIONS)
-    for nm, obj in (("NameResolverRegistry", NameResolverRegistry), ("ParameterResolverRegistry", ParameterResolverRegistry)):
-        for attr, val in vars(obj).items():
+    # every container-valued class attribute of the registries, and every module-level container of the plugin registry,
+    # discovered by type (no list of private names to keep in step with the code)
+    for nm, obj in (("ProcessorRegistry", ProcessorRegistry), ("ECR", ECR), ("NameResolverRegistry", NameResolverRegistry),
+                    ("ParameterResolverRegistry", ParameterResolverRegistry)):
+        for attr, val in sorted(vars(obj).items()):
             if isinstance(val, (list, dict, set)) and not attr.startswith("__"):
                 out[f"{nm}.{attr}"] = len(val)
+    for attr, val in sorted(vars(plugin_registry).items()):
+        if isinstance(val, (list, dict, set)) and not attr.startswith("__") and attr != "__all__":
+            out[f"plugin_registry.{attr}"] = len(val)
     out["logging.loggerDict"] = len(logging.root.manager.loggerDict)
     out["logging.handlers"] = sum(len(getattr(lg, "handlers", [])) for lg in list(logging.root.manager.loggerDict.values()) + [logging.root])
     return out
@@ -272,7 +271,7 @@ def _run_mode(sc: dict, mode: str, w, stats: dict) -> list[dict]:
         if "queue_transport" in r:
             # queued messages (job descriptions / status reports nobody has consumed) are attributed apart from the channel
             # table itself (known finding F10c is about the per-job CHANNELS only); listed first: first label wins
-            msgs = [m for (q, _lock) in list(r["queue_transport"]._queues.values()) for m in list(q)]
+            msgs = _queued_messages(r["queue_transport"])
             r = {"queue_transport.messages": msgs, **r}
         return r
 
@@ -413,6 +412,61 @@ def _run_mode(sc: dict, mode: str, w, stats: dict) -> list[dict]:
     return out
 
 
+def _queued_messages(tr) -> list:
+    """Message objects still held by a transport, found by reachability (no knowledge of its internal layout)."""
+    from semantiva.execution.transport.base import Message
+    out, seen, stack = [], {id(tr)}, [(tr, 0)]
+    while stack:
+        o, d = stack.pop()
+        for r in gc.get_referents(o):
+            if id(r) in seen or isinstance(r, _NO_WALK):
+                continue
+            seen.add(id(r))
+            if isinstance(r, Message):
+                out.append(r)
+            elif d < 5:
+                stack.append((r, d + 1))
+    return out
+
+
+def _observed_transport(im):
+    """The real in-memory transport, observed through its public API only: counts publishes (and status reports) and
+    deliveries, so that the client can tell quiescence without looking inside."""
+
+    class _CountingSub:
+        def __init__(self, inner, owner):
+            self._inner, self._owner = inner, owner
+
+        def __iter__(self):
+            for m in self._inner:
+                self._owner.n_delivered += 1
+                yield m
+
+        def close(self):
+            return self._inner.close()
+
+        def __getattr__(self, name):
+            return getattr(self._inner, name)
+
+    class ObservedTransport(im.InMemorySemantivaTransport):
+        def __init__(self):
+            super().__init__()
+            self.n_published = 0
+            self.n_status_published = 0
+            self.n_delivered = 0
+
+        def publish(self, channel, *a, **k):
+            self.n_published += 1
+            if str(channel).endswith(".status"):
+                self.n_status_published += 1
+            return super().publish(channel, *a, **k)
+
+        def subscribe(self, channel, *a, **k):
+            return _CountingSub(super().subscribe(channel, *a, **k), self)
+
+    return ObservedTransport()
+
+
 def _cli_extra(sc: dict):
     return {"execution": {"transport": "in_memory"}} if sc.get("cli_transport") else None
 
@@ -430,7 +484,7 @@ def _queue_mode(sc: dict, total: int, roots: dict, lg, sampler=None) -> None:
     sched.switches = _NullList()
     sched.choices = _NullList()
     with threads.Installed(sched, [im, qo, wk]):
-        tr = im.InMemorySemantivaTransport()
+        tr = _observed_transport(im)
         roots["queue_transport"] = tr
         stop = threads.SimEvent()
         orch = qo.QueueSemantivaOrchestrator(tr, stop_event=stop, logger=lg)
@@ -450,7 +504,7 @@ def _queue_mode(sc: dict, total: int, roots: dict, lg, sampler=None) -> None:
                 sampler.tick_run()
                 orch.enqueue(copy.deepcopy(base["nodes"]), context=ContextType(copy.deepcopy(base["context"])), registry_profile=profile)
                 waited = 0
-                while sum(1 for ch in list(tr._queues) if ch.endswith(".status")) < i + 1:
+                while tr.n_status_published < i + 1:
                     threads.sim_sleep(0.05)
                     waited += 1
                     if waited > 2000:
@@ -461,7 +515,7 @@ def _queue_mode(sc: dict, total: int, roots: dict, lg, sampler=None) -> None:
                 # collected the history goes on and the residue is what the samples measure)
                 for _ in range(100):
                     threads.sim_sleep(0.05)
-                    if orch.job_queue.empty() and not any(q for (q, _l) in list(tr._queues.values())):
+                    if orch.job_queue.empty() and tr.n_delivered >= tr.n_published:
                         break
             stop.set()
 
